@@ -32,6 +32,8 @@ type Prog struct {
 	Funcs  []*ssa.Function
 	byName map[string]*ssa.Function
 	NFiles int
+	// Inlined: the local closures replaced by their bodies (normalize.go)
+	Inlined []string
 
 	chaG *callgraph.Graph
 	vtaG *callgraph.Graph
@@ -48,6 +50,21 @@ func loadProg(dir string) (*Prog, error) {
 		Dir:   dir,
 		Tests: false,
 		Env:   append(os.Environ(), "GOFLAGS=-mod=mod", "GOPROXY=off", "GOSUMDB=off", "GOTOOLCHAIN=local", "GOWORK=off"),
+	}
+	// first load (types from export data): which local closures can be
+	// inlined, see normalize.go
+	pre := *cfg
+	pre.Mode = packages.LoadSyntax
+	prePkgs, err := packages.Load(&pre, ".")
+	if err != nil {
+		return nil, fmt.Errorf("load: %v", err)
+	}
+	var plan inlinePlan
+	if len(prePkgs) == 1 && len(prePkgs[0].Errors) == 0 && prePkgs[0].TypesInfo != nil {
+		plan = planInlining(prePkgs[0])
+	}
+	if len(plan) > 0 {
+		cfg.ParseFile = parseWithInlining(dir, plan)
 	}
 	pkgs, err := packages.Load(cfg, ".")
 	if err != nil {
@@ -79,6 +96,12 @@ func loadProg(dir string) (*Prog, error) {
 		SSA: prog, SPkg: spkgs[0], NFiles: len(pk.Syntax),
 		byName: map[string]*ssa.Function{},
 	}
+	for f, m := range plan {
+		for pos := range m {
+			p.Inlined = append(p.Inlined, fmt.Sprintf("%s:%d", f, pos.Line))
+		}
+	}
+	sort.Strings(p.Inlined)
 	if p.SPkg == nil {
 		return nil, fmt.Errorf("no SSA package")
 	}
